@@ -818,25 +818,39 @@ class Concrete(object):
         self.ctx, self.suf, self.entry = ctx, suf, entry
         syms = Alphabet.all_symbols(suf)
         self.al = Alphabet([[x] for x in syms], suf)
-        funcs = all_reachable(ctx.irp, entry)
-        self.mach = Runner(ctx, suf, self.al, funcs, {'memset': sum_memset, 'memcpy': sum_memcpy}, nul_terminated=False)
+        summ = {'memset': sum_memset, 'memcpy': sum_memcpy, 'uriMemoryManagerIsComplete': sum_complete}
+        funcs = [f for f in all_reachable(ctx.irp, entry) if f not in summ]
+        self.mach = Runner(ctx, suf, self.al, funcs, summ, nul_terminated=False)
         self.mach.coarse_regs = False
         self.mach.dmax = 4096
         self.mach.input_writable = True
         self.mach.harness |= {'OUT', 'OUTEND', 'FIRSTP', 'LASTP', 'CW', 'CR', 'IP4', 'IP6', 'SEG0', 'SEG1', 'SEG2'}
         self.mach.literals = True
+        self.mach.concrete_heap = True
+        self.mach.summaries['memset'] = self.memset
         self.mach.summaries['memcpy'] = self.memcpy
         self.csize = 1 if suf == 'A' else 4
         self.text_reads = 0
+
+    def memset(self, m, st, ins, args):
+        p, val, n = args
+        if p[0] == 'a' and p[2] and isinstance(p[2][-1], int) and n[0] == 'i' and val[0] == 'i':
+            for j in range(n[1]):
+                st.env[(p[1], p[2][:-1] + (p[2][-1] + j,))] = ('i', val[1])
+            return p
+        return sum_memset(m, st, ins, args)
 
     def memcpy(self, m, st, ins, args):
         """element-wise copy of characters into a harness buffer"""
         dst, src, n = args
         if dst[0] != 'a' or n[0] != 'i' or not dst[2] or not isinstance(dst[2][-1], int):
             return sum_memcpy(m, st, ins, args)
-        cnt = n[1] // self.csize
-        if n[1] % self.csize:
-            raise Imprecise('memcpy of %d bytes is not a whole number of characters at %s' % (n[1], fmt_loc(ins.loc)))
+        if src[0] in ('p', 'lit'):
+            cnt = n[1] // self.csize
+            if n[1] % self.csize:
+                raise Imprecise('memcpy of %d bytes is not a whole number of characters at %s' % (n[1], fmt_loc(ins.loc)))
+        else:
+            cnt = n[1]          # byte buffers
         base = dst[2][:-1]
         k0 = dst[2][-1]
         for j in range(cnt):
